@@ -749,3 +749,130 @@ Definition assembly_report (rule : gpv_rule) (draw : draw_fn) (ser : ser_fn) (ex
   let asm := assemble rule draw ser (fst hr) (snd hr) in
   (snd hr, wires rule draw ser (fst hr) (snd hr), snd asm,
    heap_eqb (firstn (length (fst hr)) (fst asm)) (fst hr)).
+
+(* ------------------------------------------------------------------ *)
+(* 8. add_examples on cases with their REAL header dictionaries         *)
+(*    (builder.py:200-210 the loop, builder.py:722-726                  *)
+(*    find_invalid_headers, core/validation.py:4-28, the two regular    *)
+(*    expressions of requests._internal_utils).  Section 4 abstracts a  *)
+(*    case to two booleans; here a case keeps the combination it was     *)
+(*    built from and its header dictionary, and the mark keeps the       *)
+(*    dictionary handed to InvalidHeadersExampleMark.set.                *)
+(*    Added after seed C17_d_invalid_headers_accumulated.                *)
+(* ------------------------------------------------------------------ *)
+(* Python str whitespace (the class \s of re on str patterns) *)
+Definition py_space (c : N) : bool :=
+  ((9 <=? c) && (c <=? 13) || (28 <=? c) && (c <=? 32) || (c =? 133) || (c =? 160) || (c =? 5760)
+   || (8192 <=? c) && (c <=? 8202) || (c =? 8232) || (c =? 8233) || (c =? 8239) || (c =? 8287) || (c =? 12288))%N.
+Definition is_crlf (c : N) : bool := ((c =? 10) || (c =? 13))%N.
+(* value.encode(latin-1) succeeds *)
+Definition latin1 (s : str) : bool := forallb (fun c => (c <=? 255)%N) s.
+(* requests _VALID_HEADER_VALUE_RE_STR: ^\S[^\r\n]*\Z|^\Z *)
+Definition value_re_ok (v : str) : bool :=
+  match v with [] => true | c :: r => negb (py_space c) && negb (existsb is_crlf r) end.
+(* requests _VALID_HEADER_NAME_RE_STR: ^[^:\s][^:\r\n]*\Z *)
+Definition name_re_ok (n : str) : bool :=
+  match n with
+  | [] => false
+  | c :: r => negb (c =? 58)%N && negb (py_space c) && negb (existsb (fun x => (x =? 58)%N || is_crlf x) r)
+  end.
+(* INVALID_HEADER_RE.search: \n(?![ \t])|\r(?![ \t\n]) *)
+Fixpoint invalid_header_re (v : str) : bool :=
+  match v with
+  | [] => false
+  | c :: r =>
+      (if (c =? 10)%N then match r with x :: _ => negb ((x =? 32) || (x =? 9))%N | [] => true end
+       else if (c =? 13)%N then match r with x :: _ => negb ((x =? 32) || (x =? 9) || (x =? 10))%N | [] => true end
+       else false) || invalid_header_re r
+  end.
+
+(* a header value: a str, or anything else (an int that was not serialized, ...) *)
+Inductive hval := HStr (s : str) | HNonStr (n : nat).
+Definition hdict := list (str * hval).
+
+Definition is_latin_1_encodable (v : hval) : bool :=
+  match v with HStr s => latin1 s | HNonStr _ => false end.
+(* check_header_validity raising InvalidHeader -> True; else the search *)
+Definition has_invalid_characters (n : str) (v : hval) : bool :=
+  match v with
+  | HNonStr _ => false
+  | HStr s => if name_re_ok n && value_re_ok s then invalid_header_re s else true
+  end.
+Definition header_invalid (nv : str * hval) : bool :=
+  negb (is_latin_1_encodable (snd nv)) || has_invalid_characters (fst nv) (snd nv).
+(* dict(find_invalid_headers(headers)): headers is a dict, the pairs kept have
+   distinct keys, dict() of them is the same sequence *)
+Definition find_invalid_headers (hs : hdict) : hdict := filter header_invalid hs.
+
+(* a generated example case: the combination it was built from (what it
+   carries), and case.headers (None = the case has no headers) *)
+Record hcase := { hc_id : nat; hc_combo : combo; hc_headers : option hdict }.
+
+(* OwnHeaders: the code.  AccumulatedHeaders: labelled SENTINEL, the variant
+   that gathers the invalid headers of all cases in one dict, tests that dict,
+   and sets the mark once after the loop (seed C17_d). *)
+Inductive hdr_rule := OwnHeaders | AccumulatedHeaders.
+
+Record hstate := { hs_added : list hcase; hs_mark : option hdict; hs_acc : hdict }.
+Definition hs_init : hstate := {| hs_added := []; hs_mark := None; hs_acc := [] |}.
+Definition hs_add (st : hstate) (c : hcase) : hstate :=
+  {| hs_added := hs_added st ++ [c]; hs_mark := hs_mark st; hs_acc := hs_acc st |}.
+
+Definition add_step (rule : hdr_rule) (st : hstate) (c : hcase) : hstate :=
+  match hc_headers c with
+  | None => hs_add st c
+  | Some hs =>
+      match rule with
+      | OwnHeaders =>
+          match find_invalid_headers hs with
+          | [] => hs_add st c
+          | inv => {| hs_added := hs_added st; hs_mark := Some inv; hs_acc := hs_acc st |}   (* Mark.set; continue *)
+          end
+      | AccumulatedHeaders =>
+          let acc := assoc_update (hs_acc st) (find_invalid_headers hs) in
+          match acc with
+          | [] => {| hs_added := hs_added st ++ [c]; hs_mark := hs_mark st; hs_acc := acc |}
+          | _ => {| hs_added := hs_added st; hs_mark := hs_mark st; hs_acc := acc |}
+          end
+      end
+  end.
+
+Record hresult := { hr_added : list hcase; hr_mark : option hdict }.
+Definition add_examples_h (rule : hdr_rule) (cs : list hcase) : hresult :=
+  let st := fold_left (add_step rule) cs hs_init in
+  {| hr_added := hs_added st;
+     hr_mark := match rule with
+                | OwnHeaders => hs_mark st
+                | AccumulatedHeaders => match hs_acc st with [] => None | a => Some a end
+                end |}.
+
+(* ---- specification vocabulary ---- *)
+Definition case_invalid (c : hcase) : hdict :=
+  match hc_headers c with Some hs => find_invalid_headers hs | None => [] end.
+Definition case_bad (c : hcase) : bool :=
+  match case_invalid c with [] => false | _ => true end.
+(* example e goes out: some attached case carries it *)
+Definition sent (r : hresult) (e : example) : Prop :=
+  exists c, In c (hr_added r) /\ carries (hc_combo c) e.
+Definition sentb (r : hresult) (e : example) : bool :=
+  existsb (fun c => carriesb (hc_combo c) e) (hr_added r).
+(* the error built from the mark names this header with this value *)
+Definition named (r : hresult) (nv : str * hval) : Prop :=
+  exists inv, hr_mark r = Some inv /\ In nv inv.
+(* the abstraction of section 4 *)
+Definition abs_case (c : hcase) : ecase :=
+  {| case_id := hc_id c;
+     has_headers := match hc_headers c with Some _ => true | None => false end;
+     invalid_headers := case_bad c |}.
+Definition abs_result (r : hresult) : add_result :=
+  Added (map abs_case (hr_added r)) (match hr_mark r with Some _ => [MInvalidHeaders] | None => [] end).
+Fixpoint last_opt {A} (l : list A) : option A :=
+  match l with [] => None | [x] => Some x | _ :: r => last_opt r end.
+(* region of the naming theorem: at most one case has invalid headers *)
+Definition single_bad_case (cs : list hcase) : bool := length (filter case_bad cs) <=? 1.
+(* generate_one is foreign: mk idx combo is the case built from the idx-th combination *)
+Fixpoint imap {A B} (f : nat -> A -> B) (i : nat) (l : list A) : list B :=
+  match l with [] => [] | x :: r => f i x :: imap f (S i) r end.
+(* for the correspondence: ids of the attached cases and the mark *)
+Definition add_examples_h_report (rule : hdr_rule) (cs : list hcase) : list nat * option hdict :=
+  let r := add_examples_h rule cs in (map hc_id (hr_added r), hr_mark r).
